@@ -15,6 +15,8 @@ type Ctl struct {
 	parked  map[string]chan struct{}
 	aborted bool
 	Steps   int
+	// OnRelease, if set, is called (on the controller's goroutine) for every released gate.
+	OnRelease func(key string)
 }
 
 func NewCtl() *Ctl {
@@ -73,6 +75,11 @@ func (c *Ctl) Release(key string) {
 	delete(c.parked, key)
 	c.Steps++
 	c.mu.Unlock()
+	raceOn()
+	if c.OnRelease != nil {
+		c.OnRelease(key)
+	}
+	raceOff()
 	close(ch)
 	raceOn()
 }
